@@ -104,6 +104,29 @@ pub fn scenario(ctx: &Ctx, idx: u64, check: &'static str, stream: &'static str) 
             }
         }
         plans.sort_by_key(|p| (p.silent_at.is_some(), std::cmp::Reverse(p.silent_at)));
+        // Id geometry (own generator, so that the other draws of the run stay as they were): in a
+        // quarter of the long runs the contacts sit in deep buckets of the node's table, down to
+        // the very last one (an id that differs from the node's in its last bit only).
+        if long_run {
+            use rand::SeedableRng;
+            let mut grng = ChaCha8Rng::seed_from_u64(seed ^ 0x9e0_b159);
+            if grng.gen_bool(0.25) {
+                report.count("c11_runs_with_contacts_in_deep_buckets");
+                let mut used: Vec<usize> = Vec::new();
+                for p in plans.iter_mut() {
+                    let prefix = match grng.gen_range(0..4) {
+                        0 => 159,
+                        1 => grng.gen_range(150..160usize),
+                        _ => grng.gen_range(0..160usize),
+                    };
+                    if prefix >= 155 && used.contains(&prefix) {
+                        continue;
+                    }
+                    used.push(prefix);
+                    p.id = gen::id_with_prefix(&mut grng, &id, prefix);
+                }
+            }
+        }
         // A peer that goes silent may come back at another port under the same id (restart, NAT
         // rebinding): the successor answers from the moment the old address falls silent. The old
         // address is a silent contact like any other and must be purged on schedule.
